@@ -10,16 +10,21 @@ CLAIMED = {
          "Termination is decided without wall-clock: after the last delivery the coordinator must leave each loop on its next poll. Exactly-once is counted through side-effect markers of run commands. Sampled digraphs (cyclic ones included), duplicate and aliased inputs, K in {1,2,3,4,8,16}."),
  "C05": ("exploration", "5.C05", "seeded schedule search over cyclic digraph projects; verdict + liveness + acyclic part vs R-seq",
          "Self-loops, 2-cycles, longer cycles, upstream files and bystanders under seeded schedules; thorough tier sweeps every labelled digraph with self-loops on <=4 files."),
+ "C06": ("exploration", "5.C06", "seeded histories (build, verify, single-point tampering / flag flip / source edit, verify) with every invocation under the controller; oracle = fresh R-seq of the current sources + inode/mtime-exact snapshot diff",
+         "Verify verdict is compared with an independently computed 'is every stored output of the closure byte-equal to a fresh sequential build' predicate; read-only-ness is checked on inode, mtime sentinel and bytes of every output path."),
+ "C07": ("exploration", "5.C07", "seeded histories (build, clean, clean) with whole-tree snapshots and command execution markers, every invocation under the controller",
+         "Whole-tree comparison against the pre-build snapshot, marker files prove no command ran, projects with directive errors included. The documented limitation that clean does not follow dependencies is listed as known finding K1 (exact signature); everything else is a violation."),
+ "C08": ("fault_enumeration", "5.C08", "crash images at scheduler steps with torn files + dirty pre-state classes at every generated path, repaired by a build that is compared with the same build (same schedule seed) from a pristine tree",
+         "Fault classes enumerated per case: pre-state class per generated path (absent, stale, empty, prefix at char boundary, prefix inside a character, random valid / invalid UTF-8), crash point = scheduler step (seeded, all K), torn-file choice per file written by the interrupted action. Schedules and projects are sampled."),
+ "C09": ("exploration", "5.C09", "twin simulated runs (build vs --needed) from an identical checkpointed pre-state under the same schedule seed; inode + mtime-sentinel comparison",
+         "Pre-states mix up-to-date, stale, missing, torn and non-UTF-8 generated files after source edits and tampering."),
+ "C10": ("exploration", "5.C10", "whole-tree snapshot diff (bytes, inode, mtime) around every simulated invocation in all four modes, failing projects and decoys included",
+         "No schedule occurs in the statement; the simulator contributes the executions (all modes, all verdicts, dirty trees) around which the diff is taken."),
 }
 
 NA = {
  "C01": "claimed later in this build (R-spec engine not yet registered)",
  "C04": "claimed later in this build (fault grid engine not yet registered)",
- "C06": "claimed later in this build (history engine not yet registered)",
- "C07": "claimed later in this build (history engine not yet registered)",
- "C08": "claimed later in this build (crash-image engine not yet registered)",
- "C09": "claimed later in this build (history engine not yet registered)",
- "C10": "claimed later in this build (history engine not yet registered)",
  "C11": "claimed later in this build (inputs engine not yet registered)",
  "C17": "claimed later in this build (shell engine not yet registered)",
  "C18": "claimed later in this build (fuzz engine not yet registered)",
